@@ -882,6 +882,68 @@ def judge_hashseed(sc, rec):
                     key, short(o.get(key)), hs, short(ref[key])), "hash-seed")
 
 
+# ------------------------------------------------------------------ permuted reads
+@st.composite
+def permuted_case_st(draw):
+    sc = draw(scenario_st().filter(lambda c: c["kind"] in ("strand", "slice", "three-d")))
+    sc["perm_seed"] = draw(st.integers(0, 10 ** 9))
+    if draw(st.booleans()):
+        # differences are where outputs get masked after assembly (NaN for population
+        # estimates, bases ...): make sure half of the cases display one
+        qd, tx = sc["queries"][0], sc["transforms"][0]
+        names = ["rows_dimension", "columns_dimension"] if len(qd["dims"]) >= 2 else \
+            ["rows_dimension"]
+        for name, d in zip(names, qd["dims"][-2:]):
+            var, part = sc["survey"]["vars"][d["var"]], d.get("part")
+            if not xforms.can_insert(var, part):
+                continue
+            v, _m = xforms.dim_ids(var, part)
+            if not v:
+                continue
+            ins = tx.setdefault(name, {}).setdefault("insertions", [])
+            ins.append({"function": "subtotal", "name": "DIFF", "id": 90,
+                        "anchor": draw(st.sampled_from(["top", "bottom"])),
+                        "kwargs": {"positive": [draw(st.sampled_from(v))],
+                                   "negative": [draw(st.sampled_from(v))]}})
+    return sc
+
+
+def judge_permuted(sc, rec):
+    """Every output of every partition, read on ONE cube in a drawn order and then (on another
+    cube) in the reverse order, equals its value on a cube of its own: for any two outputs a,
+    b both 'a before b' and 'b before a' are exercised in every case."""
+    import random
+    rec.event("kind=" + sc["kind"])
+    ref = Reference(sc)
+    resp = encode_all(sc)[0]
+    tx = _reference_transforms(sc)[0]
+    n = ref.n_partitions(0)
+    if isinstance(n, Raised) or not n:
+        return
+    rec.nontrivial()
+    for direction in (1, -1):
+        cube = lib.Cube(copy.deepcopy(resp), transforms=copy.deepcopy(tx),
+                        population=sc["population"], mask_size=sc["mask_size"])
+        parts = cube.partitions
+        for k, part in enumerate(parts):
+            outs = outputs_for(part)
+            order = list(range(len(outs)))
+            random.Random(sc["perm_seed"] + k).shuffle(order)   # drawn by Hypothesis
+            for i in order[::direction]:
+                out = outs[i]
+                want = ref.value(0, k, out)
+                got = _safe(lambda: read_output(part, out))
+                rec.compared()
+                if not deep_equal(got, want):
+                    rec.violation(
+                        "partition %d %s%s = %s when read as number %d of a %s pass over all "
+                        "outputs of one cube, but %s on a cube of its own" % (
+                            k, out[0], "" if out[1] is None else tuple(out[1]), short(got),
+                            order[::direction].index(i) + 1,
+                            "forward" if direction == 1 else "reverse", short(want)),
+                        "read-order")
+
+
 SUBCHECKS = [
     SubCheck("histories", None, replay_history, quick=640, thorough=12000, kind="custom",
              custom_fn=run_machine),
@@ -889,4 +951,5 @@ SUBCHECKS = [
     SubCheck("threads", forms_case_st(), judge_threads, quick=64, thorough=1600),
     SubCheck("set-reuse", set_reuse_case_st(), judge_set_reuse, quick=300, thorough=4000),
     SubCheck("hash-seed", hashseed_case_st(), judge_hashseed, quick=32, thorough=320),
+    SubCheck("permuted-reads", permuted_case_st(), judge_permuted, quick=800, thorough=8000),
 ]
